@@ -40,6 +40,7 @@ type Dec struct {
 }
 
 type inputInfo struct {
+	fresh bool
 	name string
 	kind string // int|i64|i32|u8|bool|f64|f32|bytes
 	t    *Term
@@ -207,7 +208,7 @@ func (e *Engine) popTo(n int) {
 }
 
 // decide returns the truth value of c on this path, forking when both are feasible.
-func (e *Engine) decide(c *Term) bool { return e.decideK(c, 0) }
+func (e *Engine) decide(c *Term) bool { return e.decideK(c, 0, false) }
 
 // concretize returns a concrete value for t, forking over the values the path allows.
 func (e *Engine) concretize(t *Term) uint64 {
@@ -241,7 +242,7 @@ func (e *Engine) concretize(t *Term) uint64 {
 		default:
 			e.unsupported("concretisation of a floating-point term")
 		}
-		if e.decideK(c, cand) {
+		if e.decideK(c, cand, false) {
 			return cand
 		}
 	}
@@ -258,7 +259,8 @@ func (e *Engine) concretizeStr(s Str) string {
 	return string(bs)
 }
 
-func (e *Engine) decideK(c *Term, k uint64) bool {
+// decideK: free = both sides are known feasible without asking (c constrains only a fresh input).
+func (e *Engine) decideK(c *Term, k uint64, free bool) bool {
 	if c.IsConst() {
 		return c.BV == 1
 	}
@@ -279,9 +281,14 @@ func (e *Engine) decideK(c *Term, k uint64) bool {
 	if e.frames != i {
 		panic(engineError{fmt.Sprintf("solver frame mismatch: frames=%d trace=%d", e.frames, i)})
 	}
-	rt := e.solver.CheckWith(c)
-	var rf SatResult
-	if rt == RUnsat {
+	var rt, rf SatResult
+	if free {
+		rt, rf = RSat, RSat
+	} else {
+		rt = e.solver.CheckWith(c)
+	}
+	if free {
+	} else if rt == RUnsat {
 		rf = RSat // pc is satisfiable, so the other side must be
 	} else {
 		rf = e.solver.CheckWith(e.tt.Not(c))
@@ -344,10 +351,22 @@ func (e *Engine) assume(c *Term) {
 // chooseEnv returns a concrete environment choice in [0,n) by forking.
 func (e *Engine) chooseEnv(name string, n int) int {
 	in := e.input(name, "int", BVSort(64))
+	free := in.fresh
+	in.fresh = false
 	for i := 0; i < n-1; i++ {
-		if e.decide(e.tt.Eq(in.t, e.tt.IntConst(int64(i), 64))) {
+		if e.decideK(e.tt.Eq(in.t, e.tt.IntConst(int64(i), 64)), 0, free) {
 			return i
 		}
+	}
+	if free {
+		// x != 0..n-2 so far and x is otherwise unconstrained: x == n-1 is feasible
+		i := len(e.trace)
+		c := e.tt.Eq(in.t, e.tt.IntConst(int64(n-1), 64))
+		e.trace = append(e.trace, Dec{V: true})
+		if i >= e.frames {
+			e.pushLit(c, true)
+		}
+		return n - 1
 	}
 	e.assume(e.tt.Eq(in.t, e.tt.IntConst(int64(n-1), 64)))
 	return n - 1
@@ -360,7 +379,7 @@ func (e *Engine) input(name, kind string, s Sort) *inputInfo {
 		}
 		return in
 	}
-	in := &inputInfo{name: name, kind: kind}
+	in := &inputInfo{name: name, kind: kind, fresh: true}
 	if c, ok := e.cfg.Concrete[name]; e.cfg.Concrete != nil {
 		if !ok {
 			c = replayInput{T: kind, V: ""}
@@ -703,7 +722,12 @@ func (x *Explorer) worker(id int, wg *sync.WaitGroup, fatal chan<- string) {
 			e.reset()
 		}
 		e.pathsSince++
+		tPath := time.Now()
+		q0, st0 := e.solver.Queries, e.solver.Time
 		end := e.runPath(prefix)
+		if d := time.Since(tPath); d > 200*time.Millisecond && os.Getenv("GOSYM_SLOW") != "" {
+			fmt.Fprintf(os.Stderr, "slow path: %v end=%s/%s steps=%d decisions=%d queries=%d solver=%v terms=%d markers=%v\n", d, end.kind, end.msg, e.steps, len(e.trace), e.solver.Queries-q0, e.solver.Time-st0, len(e.tt.all), e.markersHit)
+		}
 		x.record(e, end)
 		// share work
 		x.mu.Lock()
@@ -858,7 +882,23 @@ func (x *Explorer) Run() (*Result, error) {
 		wg.Add(1)
 		go x.worker(i, &wg, fatal)
 	}
+	stopProg := make(chan struct{})
+	if os.Getenv("GOSYM_PROGRESS") != "" {
+		go func() {
+			for {
+				select {
+				case <-stopProg:
+					return
+				case <-time.After(5 * time.Second):
+					x.mu.Lock()
+					fmt.Fprintf(os.Stderr, "progress: paths=%d queue=%d idle=%d viol=%d\n", x.stats.Paths, len(x.queue), x.idle, len(x.viols))
+					x.mu.Unlock()
+				}
+			}
+		}()
+	}
 	wg.Wait()
+	close(stopProg)
 	select {
 	case msg := <-fatal:
 		return nil, fmt.Errorf("%s", msg)
